@@ -13,7 +13,8 @@ RP   every input TLC explored (one EDGE line per terminal state) is serialised w
      (uncompressed and gzip/brotli) and run through the real readers under recover() and a watchdog.
 TV   every execution - the model's inputs, seeded multi-mutations with extreme values (MaxInt64, MinInt64, 2^62..)
      over universes whose valid streams come from the real differ/optimizer/signer, and every byte truncation of
-     the valid streams - is one trace line; TLC runs the machine on exactly that message table:
+     the valid streams, and the applier RESUMED from gob round-tripped checkpoints on streams truncated at or behind
+     the checkpoint's source offset - is one trace line; TLC runs the machine on exactly that message table:
        VIOL  the real reader panicked, hung or killed the process
        DRIFT the model predicts the other of error/completed (reported as a note; not a C10 violation)
 
@@ -146,6 +147,9 @@ def run(tier):
         per = (total + nsh - 1) // nsh
         for k in range(nsh):
             jobs.append(lambda k=k: [validate(tp) for tp in drive(run, binary, d, "tr%d" % k, targs, total=(k * per, min(per, total - k * per)))])
+
+        # ---------------- TV: the applier resumed from a checkpoint on a stream truncated in the meantime
+        jobs.append(lambda: [validate(tp) for tp in drive(run, binary, d, "resume", ["-mode", "resume", "-universes", 3 if tier == "quick" else 8])])
 
         counts = {}
         nlines = 0
